@@ -19,12 +19,9 @@ import subprocess
 import sys
 import typing as t
 
+import sys
+
 import sansldap as L
-import sansldap._authentication
-import sansldap._controls
-import sansldap._filter
-import sansldap._messages
-import sansldap._session
 import sansldap.asn1
 import sansldap.schema as S
 
@@ -33,7 +30,8 @@ from vf.engine import evid, par
 from vf.engine.icount import Counter
 from vf.ref import rxnfa
 
-MODS = [sansldap._filter, S, sansldap._session, sansldap._messages, sansldap.asn1, sansldap._controls, sansldap._authentication]
+# every module of the package that is loaded (however the package is split into files)
+MODS = [m for n, m in sorted(sys.modules.items()) if (n == "sansldap" or n.startswith("sansldap.")) and getattr(m, "__file__", None)]
 KS = (8, 16, 32, 64)
 SLACK = 60000  # one-off step when a pumped structure first becomes complete (parsing <= ~130 bytes); exponential families exceed it by k = 32
 BUDGET = 4_000_000
